@@ -25,4 +25,4 @@ package emulator
 //@   at call:Step:1 assert cycles < maxCycles && uint32(s.CPU.RK)<<16|uint32(s.CPU.PC) != targetPC
 //@   loop 1 invariant old(uint32(s.CPU.RK)<<16|uint32(s.CPU.PC)) == targetPC ==> ncalls("(*emulator/cpu65c816.CPU).Step") == 0
 //@   loop 1 decreases ite(cycles < maxCycles, maxCycles-cycles, 0)
-//@   loop 1 modifies s.CPU, s.Bus.EA, s.Bus.Write, oa
+//@   loop 1 modifies s.CPU, s.CPU.Bus.EA, s.CPU.Bus.Write, oa
